@@ -432,6 +432,10 @@ impl<const N: usize> From<Mode> for Session<N> {
             Mode::Client => client_session_id = random(),
             Mode::Server => server_session_id = random(),
         }
+        #[cfg(octo_squirrel_verif)]
+        if let Some(packet_id) = crate::verif::world::initial_packet_id(matches!(value, Mode::Client)) {
+            return Self { packet_id, client_session_id, server_session_id, user: None };
+        }
         Self { packet_id: 0, client_session_id, server_session_id, user: None }
     }
 }
